@@ -23,7 +23,7 @@ func (p *Parser) parseVerbatim(parser *Parser) (Node, error) {
 		token := parser.tokens[parser.tokenIndex]
 
 		// Look for the endverbatim tag
-		if token.Type == TOKEN_BLOCK_START || token.Type == TOKEN_BLOCK_START_TRIM {
+		if isBlockStartToken(token.Type) || token.Type == TOKEN_BLOCK_START_TRIM {
 			// Check if this is the endverbatim tag
 			if parser.tokenIndex+1 < len(parser.tokens) &&
 				parser.tokens[parser.tokenIndex+1].Type == TOKEN_NAME &&
@@ -68,7 +68,7 @@ func (p *Parser) parseVerbatim(parser *Parser) (Node, error) {
 
 				parser.tokenIndex++
 			}
-		} else if token.Type == TOKEN_BLOCK_START || token.Type == TOKEN_BLOCK_START_TRIM {
+		} else if isBlockStartToken(token.Type) || token.Type == TOKEN_BLOCK_START_TRIM {
 			// For block tags, preserve them as literal text
 			contentBuilder.WriteString("{%")
 
@@ -79,7 +79,7 @@ func (p *Parser) parseVerbatim(parser *Parser) (Node, error) {
 			for parser.tokenIndex < len(parser.tokens) {
 				innerToken := parser.tokens[parser.tokenIndex]
 
-				if innerToken.Type == TOKEN_BLOCK_END || innerToken.Type == TOKEN_BLOCK_END_TRIM {
+				if isBlockEndToken(innerToken.Type) || innerToken.Type == TOKEN_BLOCK_END_TRIM {
 					contentBuilder.WriteString("%}")
 					break
 				} else if innerToken.Type == TOKEN_NAME || innerToken.Type == TOKEN_STRING ||
@@ -87,7 +87,7 @@ func (p *Parser) parseVerbatim(parser *Parser) (Node, error) {
 					innerToken.Type == TOKEN_PUNCTUATION {
 					// If this is the first TOKEN_NAME in a block, add a space after it
 					if innerToken.Type == TOKEN_NAME && parser.tokenIndex > 0 &&
-						(parser.tokens[parser.tokenIndex-1].Type == TOKEN_BLOCK_START ||
+						(isBlockStartToken(parser.tokens[parser.tokenIndex-1].Type) ||
 							parser.tokens[parser.tokenIndex-1].Type == TOKEN_BLOCK_START_TRIM) {
 						contentBuilder.WriteString(innerToken.Value + " ")
 					} else {
